@@ -69,4 +69,13 @@ MUTANTS = [
          edits=[dict(file=C, old="            c0=Point(ot_paint.x0, ot_paint.y0),\n            c1=Point(ot_paint.x1, ot_paint.y1),", new="            c0=Point(ot_paint.x1, ot_paint.y1),\n            c1=Point(ot_paint.x0, ot_paint.y0),")]),
     dict(id="c13-benign-compose-matmul", props=["C13"], expect="silent",
          edits=[dict(file=C, old="    coord_transform = Affine2D.compose_ltr((transform, font_to_vbox))", new="    coord_transform = font_to_vbox @ transform")]),
+    dict(id="c13-radial-c1-not-mapped", props=["C13", "C02"], expect="R13f",
+         edits=[dict(file="svg.py", old="            c1=affine.map_point(paint.c1),\n", new="")]),
+    dict(id="c13-radial-r1-unscaled", props=["C13"], expect="R13f",
+         edits=[dict(file="svg.py", old="            r1=affine.map_vector((paint.r1, 0)).x,", new="            r1=paint.r1,")]),
+    dict(id="c13-linear-p2-unmapped-in-ir", props=["C13", "C01"], expect="R13f",
+         edits=[dict(file="paint.py", old="            p2=transform.map_point(self.p2),\n        )\n        if check_overflows:", new="        )\n        if check_overflows:")]),
+    dict(id="c13-benign-map-points-via-temps", props=["C13", "C02"], expect="silent",
+         edits=[dict(file="svg.py", old="        return dataclasses.replace(\n            paint,\n            p0=affine.map_point(paint.p0),\n            p1=affine.map_point(paint.p1),\n            p2=affine.map_point(paint.p2),\n        )",
+                     new="        q0 = affine.map_point(paint.p0)\n        q1 = affine.map_point(paint.p1)\n        q2 = affine.map_point(paint.p2)\n        return dataclasses.replace(paint, p0=q0, p1=q1, p2=q2)")]),
 ]
